@@ -12,12 +12,12 @@ open Gen OStream
 
 /-! ### lists of stream operations -/
 
-theorem runOps_nil (os : OStream) : runOps [] os = os := rfl
-theorem runOps_cons (op : StreamOp) (ops : List StreamOp) (os : OStream) :
-    runOps (op :: ops) os = runOps ops (op.run os) := rfl
-theorem runOps_append (a b : List StreamOp) (os : OStream) :
-    runOps (a ++ b) os = runOps b (runOps a os) := by
-  unfold runOps; rw [List.foldl_append]
+theorem runStreamOps_nil (os : OStream) : runStreamOps [] os = os := rfl
+theorem runStreamOps_cons (op : StreamOp) (ops : List StreamOp) (os : OStream) :
+    runStreamOps (op :: ops) os = runStreamOps ops (op.run os) := rfl
+theorem runStreamOps_append (a b : List StreamOp) (os : OStream) :
+    runStreamOps (a ++ b) os = runStreamOps b (runStreamOps a os) := by
+  unfold runStreamOps; rw [List.foldl_append]
 
 theorem StreamOp.run_of_fail {os : OStream} (h : os.fail = true) (op : StreamOp) : op.run os = os := by
   cases op with
@@ -25,10 +25,10 @@ theorem StreamOp.run_of_fail {os : OStream} (h : os.fail = true) (op : StreamOp)
   | write bs => exact write_of_fail h bs
   | adjust off => exact adjust_of_fail h off
 
-theorem runOps_of_fail {os : OStream} (h : os.fail = true) (ops : List StreamOp) : runOps ops os = os := by
+theorem runStreamOps_of_fail {os : OStream} (h : os.fail = true) (ops : List StreamOp) : runStreamOps ops os = os := by
   induction ops with
   | nil => rfl
-  | cons op ops ih => rw [runOps_cons, StreamOp.run_of_fail h, ih]
+  | cons op ops ih => rw [runStreamOps_cons, StreamOp.run_of_fail h, ih]
 
 theorem StreamOp.run_wf {os : OStream} (w : WF os) (op : StreamOp) : WF (op.run os) := by
   cases op with
@@ -36,7 +36,7 @@ theorem StreamOp.run_wf {os : OStream} (w : WF os) (op : StreamOp) : WF (op.run 
   | write bs => exact write_wf w bs
   | adjust off => exact adjust_wf w off
 
-theorem runOps_wf {os : OStream} (w : WF os) (ops : List StreamOp) : WF (runOps ops os) := by
+theorem runStreamOps_wf {os : OStream} (w : WF os) (ops : List StreamOp) : WF (runStreamOps ops os) := by
   induction ops generalizing os with
   | nil => exact w
   | cons op ops ih => exact ih (StreamOp.run_wf w op)
@@ -44,10 +44,10 @@ theorem runOps_wf {os : OStream} (w : WF os) (ops : List StreamOp) : WF (runOps 
 theorem StreamOp.run_budget (os : OStream) (op : StreamOp) : (op.run os).budget = os.budget := by
   cases op <;> simp [StreamOp.run]
 
-theorem runOps_budget (os : OStream) (ops : List StreamOp) : (runOps ops os).budget = os.budget := by
+theorem runStreamOps_budget (os : OStream) (ops : List StreamOp) : (runStreamOps ops os).budget = os.budget := by
   induction ops generalizing os with
   | nil => rfl
-  | cons op ops ih => rw [runOps_cons, ih, StreamOp.run_budget]
+  | cons op ops ih => rw [runStreamOps_cons, ih, StreamOp.run_budget]
 
 theorem StreamOp.run_content_mono {os : OStream} (w : WF os) (op : StreamOp) :
     os.content.length ≤ (op.run os).content.length := by
@@ -56,8 +56,8 @@ theorem StreamOp.run_content_mono {os : OStream} (w : WF os) (op : StreamOp) :
   | write bs => exact write_content_mono w bs
   | adjust off => exact adjust_content_mono w off
 
-theorem runOps_content_mono {os : OStream} (w : WF os) (ops : List StreamOp) :
-    os.content.length ≤ (runOps ops os).content.length := by
+theorem runStreamOps_content_mono {os : OStream} (w : WF os) (ops : List StreamOp) :
+    os.content.length ≤ (runStreamOps ops os).content.length := by
   induction ops generalizing os with
   | nil => exact Nat.le_refl _
   | cons op ops ih =>
@@ -70,8 +70,8 @@ theorem StreamOp.sim_run {b u : OStream} (hu : u.budget = none) (h : Sim b u) (o
   | write bs => exact sim_write hu h bs
   | adjust off => exact sim_adjust hu h off
 
-theorem sim_runOps {b u : OStream} (hu : u.budget = none) (h : Sim b u) (ops : List StreamOp) :
-    Sim (runOps ops b) (runOps ops u) := by
+theorem sim_runStreamOps {b u : OStream} (hu : u.budget = none) (h : Sim b u) (ops : List StreamOp) :
+    Sim (runStreamOps ops b) (runStreamOps ops u) := by
   induction ops generalizing b u with
   | nil => exact h
   | cons op ops ih =>
@@ -84,26 +84,26 @@ theorem StreamOp.run_withBudget {u : OStream} {k : Nat} (hb : u.budget = none) (
   | write bs => exact write_withBudget hb w.pos_le bs hk
   | adjust off => exact adjust_withBudget hb w off hk
 
-theorem runOps_withBudget {u : OStream} {k : Nat} (hb : u.budget = none) (w : WF u) (ops : List StreamOp)
-    (hk : (runOps ops u).content.length ≤ k) : runOps ops (withBudget u k) = withBudget (runOps ops u) k := by
+theorem runStreamOps_withBudget {u : OStream} {k : Nat} (hb : u.budget = none) (w : WF u) (ops : List StreamOp)
+    (hk : (runStreamOps ops u).content.length ≤ k) : runStreamOps ops (withBudget u k) = withBudget (runStreamOps ops u) k := by
   induction ops generalizing u with
   | nil => rfl
   | cons op ops ih =>
-    rw [runOps_cons] at hk
+    rw [runStreamOps_cons] at hk
     have w1 := StreamOp.run_wf w op
-    have h1 : (op.run u).content.length ≤ k := Nat.le_trans (runOps_content_mono w1 ops) hk
-    rw [runOps_cons, runOps_cons, StreamOp.run_withBudget hb w op h1]
+    have h1 : (op.run u).content.length ≤ k := Nat.le_trans (runStreamOps_content_mono w1 ops) hk
+    rw [runStreamOps_cons, runStreamOps_cons, StreamOp.run_withBudget hb w op h1]
     exact ih (by rw [StreamOp.run_budget]; exact hb) w1 hk
 
 /-- The heart of C16 on the level of streams: if the unlimited run of a list of operations ends
     with more than `k` bytes, the run on any stream with budget `k` that started in the same state
     ends failed. -/
-theorem runOps_fail_of_short {b u : OStream} {k : Nat} (hu : u.budget = none) (hbk : b.budget = some k)
-    (w : WF b) (h : Sim b u) (ops : List StreamOp) (hk : k < (runOps ops u).content.length) :
-    (runOps ops b).fail = true := by
-  rcases sim_runOps hu h ops with hf | ⟨_, _, hc, _⟩
+theorem runStreamOps_fail_of_short {b u : OStream} {k : Nat} (hu : u.budget = none) (hbk : b.budget = some k)
+    (w : WF b) (h : Sim b u) (ops : List StreamOp) (hk : k < (runStreamOps ops u).content.length) :
+    (runStreamOps ops b).fail = true := by
+  rcases sim_runStreamOps hu h ops with hf | ⟨_, _, hc, _⟩
   · exact hf
-  · have := (runOps_wf w ops).in_budget k (by rw [runOps_budget]; exact hbk)
+  · have := (runStreamOps_wf w ops).in_budget k (by rw [runStreamOps_budget]; exact hbk)
     rw [hc] at this
     omega
 
@@ -139,26 +139,26 @@ def saveOps (o : Obj) (h : Bytes) (secs : List SecBuf) (segs : List Seg) : List 
   hdrOps o h ++ bodyOps o h secs segs
 
 theorem saveSection_eq (c enc shoff shentsize) (os : OStream) (b : SecBuf) :
-    saveSection c enc shoff shentsize os b = runOps (secOps c enc shoff shentsize b) os := by
+    saveSection c enc shoff shentsize os b = runStreamOps (secOps c enc shoff shentsize b) os := by
   unfold saveSection secOps
   split <;> rfl
 
 theorem saveSegment_eq (c enc phoff phentsize) (os : OStream) (g : Seg) :
-    saveSegment c enc phoff phentsize os g = runOps (segOps c enc phoff phentsize g) os := rfl
+    saveSegment c enc phoff phentsize os g = runStreamOps (segOps c enc phoff phentsize g) os := rfl
 
 theorem foldl_saveSection (c enc shoff shentsize) (secs : List SecBuf) (os : OStream) :
-    secs.foldl (saveSection c enc shoff shentsize) os = runOps (secs.flatMap (secOps c enc shoff shentsize)) os := by
+    secs.foldl (saveSection c enc shoff shentsize) os = runStreamOps (secs.flatMap (secOps c enc shoff shentsize)) os := by
   induction secs generalizing os with
   | nil => rfl
   | cons b rest ih =>
-    rw [List.foldl_cons, List.flatMap_cons, runOps_append, ih, saveSection_eq]
+    rw [List.foldl_cons, List.flatMap_cons, runStreamOps_append, ih, saveSection_eq]
 
 theorem foldl_saveSegment (c enc phoff phentsize) (segs : List Seg) (os : OStream) :
-    segs.foldl (saveSegment c enc phoff phentsize) os = runOps (segs.flatMap (segOps c enc phoff phentsize)) os := by
+    segs.foldl (saveSegment c enc phoff phentsize) os = runStreamOps (segs.flatMap (segOps c enc phoff phentsize)) os := by
   induction segs generalizing os with
   | nil => rfl
   | cons g rest ih =>
-    rw [List.foldl_cons, List.flatMap_cons, runOps_append, ih, saveSegment_eq]
+    rw [List.foldl_cons, List.flatMap_cons, runStreamOps_append, ih, saveSegment_eq]
 
 /-- the object after a write phase whose header write failed / that went through -/
 def objHdrFailed (o : Obj) (h : Bytes) (secs : List SecBuf) (segs : List Seg) (pos : BitVec 64) : Obj :=
@@ -171,22 +171,22 @@ def objWritten (o : Obj) (h : Bytes) (secs : List SecBuf) (segs : List Seg) (pos
 theorem saveWrite_eq_ops (o : Obj) (h : Bytes) (secs : List SecBuf) (segs : List Seg) (pos : BitVec 64)
     (os : OStream) :
     saveWrite o h secs segs pos os =
-      { obj := if (runOps (hdrOps o h) os).fail then objHdrFailed o h secs segs pos
+      { obj := if (runStreamOps (hdrOps o h) os).fail then objHdrFailed o h secs segs pos
                else objWritten o h secs segs pos
-        os := runOps (saveOps o h secs segs) os
-        ok := !(runOps (saveOps o h secs segs) os).fail } := by
-  have hh : runOps (hdrOps o h) os = (os.seekp (trApply o.trans 0)).write h := rfl
+        os := runStreamOps (saveOps o h secs segs) os
+        ok := !(runStreamOps (saveOps o h secs segs) os).fail } := by
+  have hh : runStreamOps (hdrOps o h) os = (os.seekp (trApply o.trans 0)).write h := rfl
   unfold saveOps
-  rw [runOps_append, hh]
+  rw [runStreamOps_append, hh]
   unfold saveWrite
   simp only [save_header_result, save_header_result32, save_sections_result, save_segments_result, save_result]
   cases hf : ((os.seekp (trApply o.trans 0)).write h).fail with
   | true =>
-    rw [runOps_of_fail hf]
+    rw [runStreamOps_of_fail hf]
     cases hc : o.cls <;> simp [hf, objHdrFailed, hc]
   | false =>
     cases hc : o.cls <;>
-      simp [objWritten, residentSecs, bodyOps, runOps_append, foldl_saveSection, foldl_saveSegment, hc]
+      simp [objWritten, residentSecs, bodyOps, runStreamOps_append, foldl_saveSection, foldl_saveSegment, hc]
 
 /-! ### the shape of `save`: everything before the write phase ignores the stream -/
 
@@ -195,8 +195,8 @@ def SavePair (o : Obj) (os1 os2 : OStream) : Prop :=
   (∃ f, save o os1 = .error f ∧ save o os2 = .error f) ∨
   (∃ o', save o os1 = .ok { obj := o', os := os1, ok := false } ∧
          save o os2 = .ok { obj := o', os := os2, ok := false }) ∨
-  (∃ h secs segs pos, save o os1 = .ok (saveWrite o h secs segs pos os1) ∧
-                      save o os2 = .ok (saveWrite o h secs segs pos os2))
+  (∃ o' h secs segs pos, save o os1 = .ok (saveWrite o' h secs segs pos os1) ∧
+                         save o os2 = .ok (saveWrite o' h secs segs pos os2))
 
 /-- For a given object, `save` on streams that have not failed does one of three things, and which one
     does not depend on the stream: the layout faults (a model-level memory fault), the save is refused
@@ -209,7 +209,11 @@ theorem save_pair (o : Obj) (os1 os2 : OStream) (h1 : os1.fail = false) (h2 : os
   | none => right; left; exact ⟨o, by simp only [save, hh]; rfl, by simp only [save, hh]; rfl⟩
   | some h =>
     simp only [save, hh, h1, h2, Bool.false_eq_true, ↓reduceIte]
-    cases hm : List.mapM (calcSegAlign o.secs) o.segs with
+    generalize hq0 : allResident _ _ _ _ _ = q0
+    obtain ⟨secs0, ls0⟩ := q0
+    simp only []
+    generalize hm : List.mapM (m := M) (calcSegAlign _) _ = rm
+    cases rm with
     | error f => left; exact ⟨f, rfl, rfl⟩
     | ok segs =>
       simp only [bind, Except.bind]
@@ -230,7 +234,7 @@ theorem save_pair (o : Obj) (os1 os2 : OStream) (h1 : os1.fail = false) (h2 : os
             generalize hq : layoutLoose _ _ _ _ _ _ = q
             obtain ⟨secs', pos'⟩ := q
             right; right
-            exact ⟨_, _, _, _, rfl, rfl⟩
+            exact ⟨_, _, _, _, _, rfl, rfl⟩
 
 /-! ### the property -/
 
@@ -238,8 +242,8 @@ theorem save_pair (o : Obj) (os1 os2 : OStream) (h1 : os1.fail = false) (h2 : os
     `!stream.fail()` that ends `save` sees every earlier failure. -/
 theorem fail_sticky (s : OStream) (h : s.fail = true) :
     (∀ bs, s.write bs = s) ∧ (∀ p, s.seekp p = s) ∧ s.seekEnd = s ∧ (∀ off, s.adjust off = s) ∧
-    (∀ ops, runOps ops s = s) :=
-  ⟨write_of_fail h, seekp_of_fail h, seekEnd_of_fail h, adjust_of_fail h, runOps_of_fail h⟩
+    (∀ ops, runStreamOps ops s = s) :=
+  ⟨write_of_fail h, seekp_of_fail h, seekEnd_of_fail h, adjust_of_fail h, runStreamOps_of_fail h⟩
 
 theorem write_fail_sticky (s : OStream) (h : s.fail = true) (bs : Bytes) :
     s.write bs = s ∧ (s.write bs).fail = true := by
@@ -251,13 +255,13 @@ theorem content_le_budget (s : OStream) (k : Nat) (w : WF s) (hk : s.budget = so
     (∀ bs, (s.write bs).content.length ≤ k ∧ WF (s.write bs)) ∧
     (∀ p, (s.seekp p).content.length ≤ k ∧ WF (s.seekp p)) ∧
     (∀ off, (s.adjust off).content.length ≤ k ∧ WF (s.adjust off)) ∧
-    (∀ ops, (runOps ops s).content.length ≤ k ∧ WF (runOps ops s)) := by
+    (∀ ops, (runStreamOps ops s).content.length ≤ k ∧ WF (runStreamOps ops s)) := by
   refine ⟨fun bs => ⟨?_, write_wf w bs⟩, fun p => ⟨?_, seekp_wf w p⟩, fun off => ⟨?_, adjust_wf w off⟩,
-    fun ops => ⟨?_, runOps_wf w ops⟩⟩
+    fun ops => ⟨?_, runStreamOps_wf w ops⟩⟩
   · exact (write_wf w bs).in_budget k (by simpa using hk)
   · exact (seekp_wf w p).in_budget k (by simpa using hk)
   · exact (adjust_wf w off).in_budget k (by simpa using hk)
-  · exact (runOps_wf w ops).in_budget k (by rw [runOps_budget]; exact hk)
+  · exact (runStreamOps_wf w ops).in_budget k (by rw [runStreamOps_budget]; exact hk)
 
 /-- the streams the harness hands to `save` are well-formed -/
 example (k : Nat) : WF ({ budget := some k } : OStream) := WF.empty _
@@ -272,7 +276,7 @@ theorem save_fail_from (o : Obj) (u : OStream) (k : Nat) (ru : SaveRes)
     (hu : save o u = .ok ru) (hk : k < ru.os.content.length) :
     ∃ rb, save o (withBudget u k) = .ok rb ∧ rb.ok = false := by
   rcases save_pair o (withBudget u k) u (by simpa using hfu) hfu with
-    ⟨f, _, h2⟩ | ⟨o', _, h2⟩ | ⟨h, secs, segs, pos, h1, h2⟩
+    ⟨f, _, h2⟩ | ⟨o', _, h2⟩ | ⟨o1, h, secs, segs, pos, h1, h2⟩
   · rw [hu] at h2; cases h2
   · rw [hu] at h2; cases h2
     exact absurd hk0 (Nat.not_le_of_lt hk)
@@ -280,8 +284,8 @@ theorem save_fail_from (o : Obj) (u : OStream) (k : Nat) (ru : SaveRes)
     refine ⟨_, h1, ?_⟩
     rw [saveWrite_eq_ops] at hk ⊢
     have hsim : Sim (withBudget u k) u := Or.inr ⟨by simpa using hfu, hfu, rfl, rfl⟩
-    have := runOps_fail_of_short hub (withBudget_budget u k) (withBudget_wf hw hk0) hsim
-      (saveOps o h secs segs) hk
+    have := runStreamOps_fail_of_short hub (withBudget_budget u k) (withBudget_wf hw hk0) hsim
+      (saveOps o1 h secs segs) hk
     simp [this]
 
 /-- **save reports failure**: if the unlimited save of an object produces `L` bytes and `k < L`, the
@@ -299,20 +303,20 @@ theorem save_ok_from (o : Obj) (u : OStream) (k : Nat) (ru : SaveRes)
     (hu : save o u = .ok ru) (hk : ru.os.content.length ≤ k) :
     save o (withBudget u k) = .ok { ru with os := withBudget ru.os k } := by
   rcases save_pair o (withBudget u k) u (by simpa using hfu) hfu with
-    ⟨f, _, h2⟩ | ⟨o', h1, h2⟩ | ⟨h, secs, segs, pos, h1, h2⟩
+    ⟨f, _, h2⟩ | ⟨o', h1, h2⟩ | ⟨o1, h, secs, segs, pos, h1, h2⟩
   · rw [hu] at h2; cases h2
   · rw [hu] at h2; cases h2
     exact h1
   · rw [hu] at h2; cases h2
     rw [h1]
     rw [saveWrite_eq_ops] at hk
-    have hall := runOps_withBudget hub hw (saveOps o h secs segs) hk
-    have hhdr : (runOps (hdrOps o h) u).content.length ≤ k := by
-      have : (runOps (saveOps o h secs segs) u) = runOps (bodyOps o h secs segs) (runOps (hdrOps o h) u) := by
-        unfold saveOps; rw [runOps_append]
+    have hall := runStreamOps_withBudget hub hw (saveOps o1 h secs segs) hk
+    have hhdr : (runStreamOps (hdrOps o1 h) u).content.length ≤ k := by
+      have : (runStreamOps (saveOps o1 h secs segs) u) = runStreamOps (bodyOps o1 h secs segs) (runStreamOps (hdrOps o1 h) u) := by
+        unfold saveOps; rw [runStreamOps_append]
       rw [this] at hk
-      exact Nat.le_trans (runOps_content_mono (runOps_wf hw _) _) hk
-    have hh := runOps_withBudget hub hw (hdrOps o h) hhdr
+      exact Nat.le_trans (runStreamOps_content_mono (runStreamOps_wf hw _) _) hk
+    have hh := runStreamOps_withBudget hub hw (hdrOps o1 h) hhdr
     rw [saveWrite_eq_ops, saveWrite_eq_ops, hall, hh]
     rfl
 
@@ -408,8 +412,8 @@ theorem good_run {u : OStream} (g : Good u) (op : StreamOp) (h : Safe op) : Good
   | write bs => exact good_write g bs
   | adjust off => exact good_adjust g off h
 
-theorem good_runOps {u : OStream} (g : Good u) (ops : List StreamOp) (h : ∀ op ∈ ops, Safe op) :
-    Good (runOps ops u) := by
+theorem good_runStreamOps {u : OStream} (g : Good u) (ops : List StreamOp) (h : ∀ op ∈ ops, Safe op) :
+    Good (runStreamOps ops u) := by
   induction ops generalizing u with
   | nil => exact g
   | cons op ops ih =>
@@ -463,15 +467,15 @@ theorem saveOps_safe {o : Obj} {h : Bytes} {secs : List SecBuf} (segs : List Seg
 theorem save_unlimited_true (o : Obj) (u : OStream) (ru : SaveRes)
     (hub : u.budget = none) (hw : WF u) (hfu : u.fail = false) (hu : save o u = .ok ru) :
     (ru.os = u ∧ ru.ok = false) ∨
-    ∃ h secs segs pos, ru = saveWrite o h secs segs pos u ∧ (SafePositions o h secs → ru.ok = true) := by
-  rcases save_pair o u u hfu hfu with ⟨f, _, h2⟩ | ⟨o', _, h2⟩ | ⟨h, secs, segs, pos, _, h2⟩
+    ∃ o' h secs segs pos, ru = saveWrite o' h secs segs pos u ∧ (SafePositions o' h secs → ru.ok = true) := by
+  rcases save_pair o u u hfu hfu with ⟨f, _, h2⟩ | ⟨o', _, h2⟩ | ⟨o1, h, secs, segs, pos, _, h2⟩
   · rw [hu] at h2; cases h2
   · rw [hu] at h2; cases h2; left; exact ⟨rfl, rfl⟩
   · rw [hu] at h2; cases h2
     right
-    refine ⟨h, secs, segs, pos, rfl, fun sp => ?_⟩
+    refine ⟨o1, h, secs, segs, pos, rfl, fun sp => ?_⟩
     rw [saveWrite_eq_ops]
-    have := (good_runOps ⟨hub, hfu, hw⟩ _ (saveOps_safe segs sp)).notFailed
+    have := (good_runStreamOps ⟨hub, hfu, hw⟩ _ (saveOps_safe segs sp)).notFailed
     simp [this]
 
 /-! ### before the repair (documentation of finding F1; nothing else depends on this section) -/
@@ -490,6 +494,9 @@ def saveOld (o : Obj) (os : OStream) : M SaveRes := do
   | some h =>
   if os.fail then pure { obj := o, os := os, ok := false } else
   let c := o.cls; let e := o.enc
+  -- `for (sec : sections_) sec->get_data();` : lazily loaded data is read before the layout
+  let (secs0, ls0) := allResident c o.trans o.secs { st := o.stream } []
+  let o := { o with secs := secs0, stream := ls0.st }
   let nseg := o.segs.length % 65536
   let nsec := o.secs.length % 65536
   let h := Hdr.set_phnum c e h nseg
@@ -533,7 +540,11 @@ theorem saveOld_same_effects (o : Obj) (os : OStream) :
     | true => simp only [save, saveOld, hh, hf, ↓reduceIte]
     | false =>
       simp only [save, saveOld, hh, hf, Bool.false_eq_true, ↓reduceIte]
-      cases hm : List.mapM (calcSegAlign o.secs) o.segs with
+      generalize hq0 : allResident _ _ _ _ _ = q0
+      obtain ⟨secs0, ls0⟩ := q0
+      simp only []
+      generalize hm : List.mapM (m := M) (calcSegAlign _) _ = rm
+      cases rm with
       | error f => rfl
       | ok segs =>
         simp only [bind, Except.bind]
